@@ -36,7 +36,7 @@ def tag_of(module: str) -> str:
 	return module.replace('.', '_')
 
 
-def build_module(module: str, cls: str, vtype: str, lit: str, deps: list[dict[str, Any]], *, extra_fn: bool = False, extra_field: bool = False, with_enum: bool = False, alias: bool = False, dict_local: bool = False, syntax_error: bool = False) -> str:
+def build_module(module: str, cls: str, vtype: str, lit: str, deps: list[dict[str, Any]], *, extra_fn: bool = False, extra_field: bool = False, with_enum: bool = False, alias: bool = False, dict_local: bool = False, syntax_error: bool = False, wide: bool = False, doc: bool = False) -> str:
 	"""deps: [{'module', 'cls', 'tag', 'deps': [ {'tag','cls'} ... ]}] — what this variant imports."""
 	tag = tag_of(module)
 	lines: list[str] = []
@@ -45,9 +45,9 @@ def build_module(module: str, cls: str, vtype: str, lit: str, deps: list[dict[st
 	for d in deps:
 		name = d['cls']
 		if alias and name == cls:
-			lines.append(f"from {d['module']} import {name} as {name}_{d['tag']}, make_{d['tag']}")
+			lines.append(f"from {d['module']} import {name} as {name}_{d['tag']}, make_{d['tag']}" + (f", wide_{d['tag']}" if d.get('wide') else ''))
 		else:
-			lines.append(f"from {d['module']} import {name}, make_{d['tag']}")
+			lines.append(f"from {d['module']} import {name}, make_{d['tag']}" + (f", wide_{d['tag']}" if d.get('wide') else ''))
 
 	def dep_cls(d: dict[str, Any]) -> str:
 		return f"{d['cls']}_{d['tag']}" if alias and d['cls'] == cls else d['cls']
@@ -57,6 +57,8 @@ def build_module(module: str, cls: str, vtype: str, lit: str, deps: list[dict[st
 	if with_enum:
 		lines += [f'class Kind_{tag}(Enum):', '\tA = 0', '\tB = 1', '', '']
 	lines.append(f'class {cls}:')
+	if doc:
+		lines += ['\t"""Holder of one value', '', '\tNote:', f'\t\tspans several lines ({tag})', '\t"""', '']
 	lines.append(f'\tvalue: {vtype}')
 	lines.append(f'\titems: list[{vtype}]')
 	if extra_field:
@@ -88,7 +90,14 @@ def build_module(module: str, cls: str, vtype: str, lit: str, deps: list[dict[st
 		lines.append(f"\t\treturn self.d_{d['tag']}")
 	lines += ['', '']
 	lines.append(f'def make_{tag}() -> {cls}:')
+	if doc:
+		lines += ['\t"""Factory', '', '\tReturns:', '\t\ta fresh instance', '\t"""']
 	lines.append(f'\treturn {cls}({lit})')
+	if wide:
+		# >= 11 sibling attributes (two-digit index paths in the stored symbol form) and nested generics below them
+		lines += ['', '']
+		lines.append(f'def wide_{tag}(p0: int, p1: str, p2: float, p3: list[int], p4: dict[str, int], p5: bool, p6: {cls}, p7: list[str], p8: dict[str, list[int]], p9: float, p10: list[{cls}], p11: {vtype}) -> dict[str, list[{vtype}]]:')
+		lines.append('\treturn {p1: [p11]}')
 	if extra_fn:
 		lines += ['', '']
 		lines.append(f'def extra_{tag}(n: int) -> int:')
@@ -102,8 +111,18 @@ def build_module(module: str, cls: str, vtype: str, lit: str, deps: list[dict[st
 	lines.append('\town2 = own')
 	lines.append('\tf = o.first')
 	lines.append('\tg = f')
+	if wide:
+		lines.append(f"\twd = wide_{tag}(0, 'a', 1.5, [1], {{'k': 1}}, True, o, ['s'], {{'k': [1]}}, 2.5, [o], own)")
+		lines.append('\twd2 = wd')
+	if doc:
+		lines.append("\ttxt = '''first")
+		lines.append("second line'''")
+		lines.append('\ttxt2 = txt')
 	for d in deps:
 		t = d['tag']
+		if d.get('wide'):
+			lines.append(f"\two_{t} = wide_{t}(0, 'a', 1.5, [1], {{'k': 1}}, True, make_{t}(), ['s'], {{'k': [1]}}, 2.5, [make_{t}()], make_{t}().value)")
+			lines.append(f'\two2_{t} = wo_{t}')
 		lines.append(f'\tv_{t} = make_{t}()')
 		lines.append(f'\tw_{t} = v_{t}.value')
 		lines.append(f'\tu_{t} = w_{t}')
@@ -124,7 +143,7 @@ def build_module(module: str, cls: str, vtype: str, lit: str, deps: list[dict[st
 	return '\n'.join(lines) + '\n'
 
 
-def gen_pool(rng: random.Random, shape: str | None = None, n_variants: int | None = None, allow_invalid: bool = True) -> dict[str, Any]:
+def gen_pool(rng: random.Random, shape: str | None = None, n_variants: int | None = None, allow_invalid: bool = True, wide_p: float = 0.4, doc_p: float = 0.4) -> dict[str, Any]:
 	"""Returns {'shape', 'modules': [names, index 0 = top], 'variants': {name: [ {src, imports, note} ]}, 'order': names}."""
 	shape = shape or rng.choice(sorted(SHAPES))
 	n, edges = SHAPES[shape]
@@ -135,7 +154,7 @@ def gen_pool(rng: random.Random, shape: str | None = None, n_variants: int | Non
 		# distinct class names unless aliasing is exercised
 		classes = rng.sample(CLASS_POOL, n) if n <= len(CLASS_POOL) else classes
 	alias = same_cls
-	flags = [{'with_enum': rng.random() < 0.35, 'dict_local': rng.random() < 0.4} for _ in range(n)]
+	flags = [{'with_enum': rng.random() < 0.35, 'dict_local': rng.random() < 0.4, 'wide': rng.random() < wide_p, 'doc': rng.random() < doc_p} for _ in range(n)]
 	deps_of = {i: [j for (a, j) in edges if a == i] for i in range(n)}
 
 	def dep_specs(i: int, dropped: set[int] = frozenset()) -> list[dict[str, Any]]:
@@ -143,7 +162,7 @@ def gen_pool(rng: random.Random, shape: str | None = None, n_variants: int | Non
 		for j in deps_of[i]:
 			if j in dropped:
 				continue
-			out.append({'module': names[j], 'cls': classes[j], 'tag': tag_of(names[j]), 'deps': [{'tag': tag_of(names[e]), 'cls': classes[e]} for e in deps_of[j]]})
+			out.append({'module': names[j], 'cls': classes[j], 'tag': tag_of(names[j]), 'wide': flags[j]['wide'], 'deps': [{'tag': tag_of(names[e]), 'cls': classes[e]} for e in deps_of[j]]})
 		return out
 
 	variants: dict[str, list[dict[str, Any]]] = {}
@@ -205,4 +224,4 @@ def fixed_pool(which: int = 0) -> dict[str, Any]:
 	"""Small deterministic pools for canonical short histories and enumeration passes."""
 	shapes = ['chain3', 'diamond', 'chain2', 'vee']
 	rng = random.Random(FIXED_POOL_SEEDS[which % 4])
-	return gen_pool(rng, shape=shapes[which % 4], n_variants=3, allow_invalid=False)
+	return gen_pool(rng, shape=shapes[which % 4], n_variants=3, allow_invalid=False, wide_p=1.0 if which % 2 == 0 else 0.5, doc_p=1.0 if which % 2 == 0 else 0.5)
